@@ -56,6 +56,31 @@ class Build:
         shutil.rmtree(self.dir, ignore_errors=True)
 
 
+def uncovered_by_function(build, cov):
+    """maps the union edge bitmap to function names with llvm-symbolizer (pc-table of the ASan executor)"""
+    ctx = Ctx(build, "cov", tag="cov")
+    try:
+        ex = ctx.executor("asan")
+        tab = ex.command({"cmd": "pctable"})["pcs"]
+    finally:
+        ctx.close()
+    p = subprocess.run(["/usr/bin/llvm-symbolizer-14", "-e", build.binary("asan"), "--functions=short", "--no-inlines"], input="\n".join(tab) + "\n",
+                       capture_output=True, text=True)
+    blocks = [b for b in p.stdout.split("\n\n") if b.strip()]
+    funcs = [b.split("\n")[0] for b in blocks]
+    if len(funcs) != len(tab):
+        return None
+    tot, unc = {}, {}
+    bits = cov["bits"]
+    for g, fn in enumerate(funcs):
+        tot[fn] = tot.get(fn, 0) + 1
+        if not (bits >> g) & 1:
+            unc[fn] = unc.get(fn, 0) + 1
+    never = sorted(f for f in tot if unc.get(f, 0) == tot[f])
+    top = sorted(((n, f) for f, n in unc.items() if f not in never), reverse=True)[:12]
+    return {"functions_total": len(tot), "never_entered": never, "top": {f: "%d of %d" % (n, tot[f]) for n, f in top}}
+
+
 def load_prop(pid):
     return importlib.import_module("lesim.props." + pid.lower())
 
@@ -407,13 +432,12 @@ def check_main(pid, tier, seed_base, workers=None, runs=None, wall_cap=None):
         if hasattr(mod, "extra_phase"):
             extra = mod.extra_phase(build, seed_base, tier, workers) or {}
         confirmed, nondet = gate_candidates(mod, build, total.get("candidates", []) + extra.get("candidates", []), seed_base, tier)
-        cov = None
+        uncovered = None
         try:
-            ctx = Ctx(build, "cov")
-            # coverage of the library edges reached by a small re-run is reported by the workers; here only totals
-            ctx.close()
-        except Exception:
-            pass
+            if total.get("cov"):
+                uncovered = uncovered_by_function(build, total["cov"])
+        except Exception as e:
+            log("coverage symbolisation failed: %r" % e)
     wall = time.time() - t0
     known = load_known()
     open_ids = {k["id"]: k for k in known.get("open", []) if k.get("property") == pid or pid in k.get("properties", [])}
@@ -467,6 +491,10 @@ def check_main(pid, tier, seed_base, workers=None, runs=None, wall_cap=None):
         ev["coverage"]["library_edges_total"] = total["cov"]["total"]
         ev["coverage"]["library_edges_covered"] = bin(total["cov"]["bits"]).count("1")
         ev["coverage"]["library_edges_note"] = "trace-pc-guard edges of /repo/lib/*.c in the ASan+UBSan build (includes sanitizer-check edges that only a failing check would take)"
+    if uncovered:
+        ev["coverage"]["library_functions_total"] = uncovered["functions_total"]
+        ev["coverage"]["library_functions_never_entered"] = uncovered["never_entered"]
+        ev["coverage"]["uncovered_edges_by_function_top"] = uncovered["top"]
     ev["coverage"].update(extra.get("coverage", {}))
     write_evidence(pid, ev)
     log("%s %s: %d runs (%d plans) in %.1fs, %d distinct non-trivial, violations=%d, known=%s" % (
